@@ -19,10 +19,12 @@
    rules below (the as-designed data flow); TLC checks that `bad` is unreachable.                                 *)
 EXTENDS Naturals, Sequences, FiniteSets, TLC, Json
 
+\* "gen_phase2": gen --emit sqlalchemy --phase 2 (foreign keys of an already generated models file are resolved by LOCATING and
+\* parsing the modules its `from .. import ..` statements name -- never by importing them)
 Apis == {"parse", "emit", "doctrans", "sync", "sync_properties", "sync_properties_eval", "gen_file", "gen_prepend", "exmod", "exmod_dry",
-         "route_parse", "openapi_bulk"}
+         "route_parse", "openapi_bulk", "gen_phase2"}
 EvalMode(api) == api \in {"sync_properties_eval", "gen_prepend"}
-OutOf(api) == CASE api \in {"doctrans", "sync", "sync_properties", "sync_properties_eval", "gen_file", "gen_prepend"} -> "file"
+OutOf(api) == CASE api \in {"doctrans", "sync", "sync_properties", "sync_properties_eval", "gen_file", "gen_prepend", "gen_phase2"} -> "file"
                 [] api = "exmod" -> "dir" [] OTHER -> "none"
 
 \* sync_properties --input-eval is the statement's sole exception: the user asked for the input module to be evaluated,
@@ -38,7 +40,9 @@ Allowed(api, e) ==
 \* ---- the adversary and the as-designed data flow --------------------------------------------------------------
 \* "yaml_block": the ```yml block of a route's docstring (read by the route parser / openapi_bulk with a SAFE yaml loader:
 \* python tags are rejected, nothing is constructed)
-Slots == {"default", "type", "description", "module_stmt", "yaml_block"}
+\* "import_from": a `from <module> import <Name>` statement of the analysed file whose <Name> a foreign-key column refers to; the
+\* hostile payloads make <module> a package whose __init__ has side effects (benign: a plain module file)
+Slots == {"default", "type", "description", "module_stmt", "yaml_block", "import_from"}
 Payloads == {"benign", "call_expr", "dunder_chain", "import_stmt"}
 \* what an analysing API does with a slot: source text is parsed to an AST (compile with ONLY_AST: no exec event),
 \* defaults go through literal_eval (no exec), a type guessed from prose passes a character whitelist (letters, digits,
